@@ -24,7 +24,7 @@ type simpleServer struct {
 	st    *memServerTransport
 }
 
-const simpleAcceptFrame = "(*FSimpleServer).accept("
+const simpleAcceptFrame = "(*FSimpleServer).accept"
 const simpleAcceptLoop = "(*FSimpleServer).acceptLoop"
 
 func newSimpleServer(proto string) (entryPoint, error) {
